@@ -74,6 +74,7 @@ var specs = map[string]propSpec{
 		Units: []unitSpec{
 			{Name: "rapid-unconstrained-expressions", Test: "TestC15Rapid", Rapid: true, QuickChecks: 60000, ThoroughChecks: 800000, QuickShards: 4, ThoroughShards: 14},
 			{Name: "enum-ill-typed-calls", Test: "TestC15Enum", QuickShards: 2, ThoroughShards: 2},
+			{Name: "enum-pumped-predicates", Test: "TestC15Pumped", QuickShards: 2, ThoroughShards: 4},
 			{Name: "fuzz-eval", Fuzz: "FuzzEval", Tier: "thorough", FuzzTimeS: 120, ThoroughShards: 1, ThoroughTimeoutS: 900},
 		},
 		Assumptions: []string{"all legitimate loops of the engine go through the navigator, so an operation budget of 2*10^7 (confirmed at 4*10^7) on documents of <= ~15 nodes decides non-termination deterministically", "a panic whose value is an error but not a runtime.Error is taken to be raised deliberately by the package", "the harness navigators honour the NodeNavigator contract"},
